@@ -107,4 +107,27 @@ SPECS["C01"] = [
 ]
 
 # properties whose theorems are (also) stated about translations that belong to another property's file
-USES = {"C17": ["C01"], "C07": ["C06"]}
+USES = {"C17": ["C01"], "C07": ["C06"], "C08": ["C10"]}
+
+# ---- C10: bilinear interpolation kernel of scattering matrices; C08: model amplitudes with matrices (one timetrace)
+SPECS["C10"] = [
+    FuncSpec(SCAT, "_interpolate_scattering_matrix_kernel", "interpolate_scattering_matrix_kernel",
+             [("scattering_matrix", A(K, 2)), ("numpoints", N), ("inc_theta", K), ("out_theta", K)],
+             bind={"scattering_matrix.shape[0]": ("numpoints", N)},
+             locals={"inc_theta_idx_plus1": I, "out_theta_idx_plus1": I},
+             doc="`numpoints` is `scattering_matrix.shape[0]`"),
+]
+
+SPECS["C08"].append(
+    FuncSpec(MODEL, "_model_amplitudes_with_scat_matrix", "model_amplitudes_with_scat_matrix_cell",
+             [("tx", A(N, 1)), ("rx", A(N, 1)), ("scattering_matrix", A(K, 2)), ("numpoints", N),
+              ("tx_ray_weights", A(K, 1)), ("rx_ray_weights", A(K, 1)),
+              ("tx_scattering_angles", A(K, 1)), ("rx_scattering_angles", A(K, 1)), ("scat_angle", K), ("scan", N)],
+             bind={"scat_angle[0]": ("scat_angle", K),
+                   "_scat._interpolate_scattering_matrix_kernel":
+                       ("(fun M a b => interpolate_scattering_matrix_kernel o M numpoints a b)", F([A(K, 2), K, K], K))},
+             skip=["numtimetraces = tx.shape[0]"],
+             cell={"loops": ["scan"], "arrays": {"res": (K, ("scan",))}},
+             doc="one grid point, one timetrace; `numpoints` is `scattering_matrix.shape[0]`; amplitudes and angles in one scalar type"))
+DEPENDS["C08"] = ["C10"]
+IMPORTS["C08"] = ["ArimModel.Src", "ArimProofs.Generated.SrcC10"]
